@@ -1,7 +1,7 @@
 (* Lemmas for M_polyline_slice.v (C06). *)
 From Coq Require Import ZArith Reals Lra Psatz List Bool Lia Arith.
 From PW Require Import Num NumR Vec NpList Result.
-From PW.model Require Import M_plane M_polyline_base M_polyline_slice.
+From PW.model Require Import M_plane M_polyline_base M_polyline_slice M_polyline_slice_spec.
 From PW.proofs Require Import P_vec P_nplist P_plane.
 Import ListNotations.
 
@@ -80,7 +80,11 @@ Section Core.
   Local Notation group := (group sg).
   Local Notation cons_group := (cons_group sg).
 
-  Definition front (v : A) : Prop := sg v = 1%Z.
+  Local Notation front := (front sg).
+  Local Notation open_split := (open_split sg).
+  Local Notation enter := (enter sg pt xs).
+  Local Notation leave := (leave sg pt xs).
+  Local Notation spec_result := (spec_result sg pt xs).
 
   Lemma group_hd v r : exists c g', group (v :: r) = (sg v, v :: c) :: g'.
   Proof.
@@ -165,26 +169,6 @@ Section Core.
     intros H. injection H as <- <-. exists v. auto.
   Qed.
 
-  (* ---- the specification (DESIGN Appendix A) ----------------------------------------------------- *)
-  Inductive open_split (l pre run post : list A) : Prop :=
-    OpenSplit : l = pre ++ run ++ post -> run <> [] -> Forall front run ->
-                Forall (fun v => ~ front v) (pre ++ post) -> open_split l pre run post.
-  (* extension at the start of the run: nothing when the path starts in front; the previous vertex when it is on
-     the plane; otherwise the crossing of the segment from the previous vertex to the first vertex in front *)
-  Definition enter (before first : option A) : list B :=
-    match before, first with
-    | Some v, Some f => if (sg v =? 0)%Z then [pt v] else [xs v f]
-    | _, _ => []
-    end.
-  (* extension at the end: the crossing is taken from the last vertex in front towards the next vertex *)
-  Definition leave (lastv after : option A) : list B :=
-    match lastv, after with
-    | Some l, Some v => if (sg v =? 0)%Z then [pt v] else [xs l v]
-    | _, _ => []
-    end.
-  Definition spec_result (pre run post : list A) : list B :=
-    enter (olast pre) (hd_error run) ++ map pt run ++ leave (olast run) (hd_error post).
-
   Local Notation isf := (fun c : Z * list A => (fst c =? 1)%Z).
 
   Lemma nonfront_mask g : Forall (fun sc => fst sc <> 1%Z) g -> Forall (fun b => b = false) (map isf g).
@@ -204,12 +188,12 @@ Section Core.
     { rewrite group_app; [rewrite (group_run 1%Z run) by assumption; reflexivity|].
       intros x y Hx Hy. destruct post as [|p post']; [discriminate|]. injection Hy as <-.
       apply olast_split in Hx as (r' & ->). apply Forall_app in Hf as [_ Hx]. inversion Hx; subst.
-      inversion Hpost; subst. unfold front in *. congruence. }
+      inversion Hpost; subst. unfold M_polyline_slice_spec.front in *. congruence. }
     assert (Hg : group (pre ++ run ++ post) = group pre ++ [(1%Z, run)] ++ group post).
     { rewrite group_app; [rewrite Hrp; reflexivity|].
       intros x y Hx Hy. destruct run as [|f0 run']; [congruence|]. cbn in Hy. injection Hy as <-.
       apply olast_split in Hx as (r' & ->). apply Forall_app in Hpre as [_ Hx]. inversion Hx; subst.
-      inversion Hf; subst. unfold front in *. congruence. }
+      inversion Hf; subst. unfold M_polyline_slice_spec.front in *. congruence. }
     rewrite slice_core_ne by (destruct pre; [destruct run; [congruence|discriminate]|discriminate]).
     rewrite Hg. unfold slice_groups.
     assert (Hgp : Forall (fun sc => fst sc <> 1%Z) (group pre)) by (apply (group_signs (fun s => s <> 1%Z)); exact Hpre).
@@ -223,16 +207,16 @@ Section Core.
       - destruct post as [|q post']; [cbn in Hpp; congruence|]. destruct (group_hd q post') as (c & g' & ->). cbn. lia.
       - destruct (group_hd p pre') as (c & g' & ->). cbn. lia. }
     rewrite Hlen. rewrite nth_error_app2 by lia. rewrite Nat.sub_diag. cbn [nth_error].
-    f_equal. unfold spec_result. f_equal; [|f_equal].
+    f_equal. unfold M_polyline_slice_spec.spec_result. f_equal; [|f_equal].
     - (* prepend *)
-      unfold prepend_of, enter. destruct (length (group pre)) as [|k'] eqn:Elen.
+      unfold prepend_of, M_polyline_slice_spec.enter. destruct (length (group pre)) as [|k'] eqn:Elen.
       + apply length_zero_iff_nil, group_nil_iff in Elen. subst pre. reflexivity.
       + rewrite (nth_error_olast _ _ _ Elen). destruct (olast (group pre)) as [[s c]|] eqn:Eo.
         * destruct (group_olast _ _ _ Eo) as (v & Hc & Hl & Hs). rewrite Hc, Hl.
           destruct run as [|f0 run']; [congruence|]. cbn [hd_error]. rewrite Hs. reflexivity.
         * apply olast_none in Eo. rewrite Eo in Elen. discriminate.
     - (* append *)
-      unfold append_of, leave. rewrite nth_error_app2 by lia.
+      unfold append_of, M_polyline_slice_spec.leave. rewrite nth_error_app2 by lia.
       replace (S (length (group pre)) - length (group pre))%nat with 1%nat by lia. cbn [nth_error].
       destruct (ne_olast run Hne) as (r' & lv & Er). assert (Hol : olast run = Some lv) by (rewrite Er; apply olast_app_one). rewrite Hol.
       destruct post as [|q post']; [reflexivity|].
@@ -245,7 +229,7 @@ Section Core.
   Proof.
     induction g as [|[s c] g IH]; intros Hm Hs; [constructor|]. inversion Hm; subst. inversion Hs; subst.
     cbn [map concat snd]. apply Forall_app. split; [|apply IH; assumption].
-    cbn [fst snd] in *. eapply Forall_impl; [|eassumption]. cbn. intros a Ha. unfold front. congruence.
+    cbn [fst snd] in *. eapply Forall_impl; [|eassumption]. cbn. intros a Ha. unfold M_polyline_slice_spec.front. congruence.
   Qed.
   Lemma mask_nonfront (g : list (Z * list A)) :
     Forall (fun b => b = false) (map isf g) -> Forall (fun sc => fst sc <> 1%Z) g.
@@ -345,8 +329,9 @@ Section Closed.
   Context {A B : Type} (sg : A -> Z) (pt : A -> B) (xs : A -> A -> B).
   Local Notation front := (front sg).
 
-  Definition closed_spec_result (run rest : list A) : list B :=
-    enter sg pt xs (olast rest) (hd_error run) ++ map pt run ++ leave sg pt xs (olast run) (hd_error rest).
+  Local Notation closed_spec_result := (closed_spec_result sg pt xs).
+  Local Notation cyclic_split := (cyclic_split sg).
+  Local Notation spec_result := (spec_result sg pt xs).
 
   Lemma mask_front_true (P : Z -> bool) l : Forall (fun v => P (sg v) = true) l ->
     Forall (fun b => b = true) (map (fun v => P (sg v)) l).
@@ -390,7 +375,7 @@ Section Closed.
     replace (x :: ((run1 ++ run2) ++ rest') ++ [x]) with ([x] ++ (run1 ++ run2) ++ rest) by (rewrite Er, <- !app_assoc; reflexivity).
     assert (Fx : ~ front x) by (rewrite Er in Hnf; apply Forall_app in Hnf as [_ Hx]; inversion Hx; assumption).
     rewrite core_split_ok.
-    - unfold spec_result, closed_spec_result. rewrite Er at 2. rewrite olast_app_one. reflexivity.
+    - unfold M_polyline_slice_spec.spec_result, M_polyline_slice_spec.closed_spec_result. rewrite Er at 2. rewrite olast_app_one. reflexivity.
     - destruct run1; [congruence|discriminate].
     - apply Forall_app; split; assumption.
     - cbn [app]. constructor; assumption.
@@ -431,7 +416,7 @@ Section Closed.
       rewrite skipn_len_app, firstn_len_app. cbn [app firstn].
       replace (z :: f0 :: (run' ++ r2') ++ [z]) with ([z] ++ (f0 :: run') ++ rest2) by (rewrite E2; cbn; rewrite <- app_assoc; reflexivity).
       rewrite core_split_ok; try assumption; try discriminate.
-      + unfold spec_result, closed_spec_result. rewrite E2 at 2. rewrite olast_app_one. reflexivity.
+      + unfold M_polyline_slice_spec.spec_result, M_polyline_slice_spec.closed_spec_result. rewrite E2 at 2. rewrite olast_app_one. reflexivity.
       + cbn [app]. constructor; assumption.
     - rewrite <- E1 in *. assert (Hne1 : rest1 <> []) by (rewrite E1; discriminate).
       destruct (ne_olast rest1 Hne1) as (r1' & x & Ex). clear E1.
@@ -444,15 +429,10 @@ Section Closed.
         by (rewrite Ex; cbn; rewrite <- !app_assoc; reflexivity).
       assert (Fx : ~ front x) by (rewrite Ex in Hn1; apply Forall_app in Hn1 as [_ Hx]; inversion Hx; assumption).
       rewrite core_split_ok; try assumption; try discriminate.
-      + unfold spec_result, closed_spec_result. rewrite (olast_app_ne rest2 rest1) by assumption.
+      + unfold M_polyline_slice_spec.spec_result, M_polyline_slice_spec.closed_spec_result. rewrite (olast_app_ne rest2 rest1) by assumption.
         rewrite Ex at 2. rewrite olast_app_one. reflexivity.
       + cbn [app]. constructor; assumption.
   Qed.
-
-  (* a closed polyline has a cyclic split when some rotation of it is  run ++ rest *)
-  Definition cyclic_split (l run rest : list A) : Prop :=
-    (exists x y, l = x ++ y /\ y ++ x = run ++ rest) /\ run <> [] /\ rest <> [] /\
-    Forall front run /\ Forall (fun v => ~ front v) rest.
 
   Lemma closed_split_ok l run rest : cyclic_split l run rest ->
     slice_closed sg pt xs l = Ok (closed_spec_result run rest).
@@ -548,29 +528,25 @@ End Closed.
 (* ---- the crossing point ---------------------------------------------------------------------------- *)
 Local Open Scope R_scope.
 
-(* the point where the segment from a to b meets the plane, as the code computes it (from a towards b) *)
-Definition crossing_t (pl : plane R) (a b : vec3 R) : R :=
-  xsect_t ROps a (vsub ROps b a) (pref pl) (pnormal pl).
-Definition crossing (pl : plane R) (a b : vec3 R) : vec3 R :=
-  vadd ROps a (vscale ROps (crossing_t pl a b) (vsub ROps b a)).
-Definition opposite (pl : plane R) (a b : vec3 R) : Prop :=
-  (plane_sd ROps pl a < 0 /\ 0 < plane_sd ROps pl b) \/ (plane_sd ROps pl b < 0 /\ 0 < plane_sd ROps pl a).
-
 Lemma crossing_num pl a : vdot ROps (vsub ROps (pref pl) a) (pnormal pl) = - plane_sd ROps pl a.
 Proof. destruct pl as [[rx ry rz] [nx ny nz]], a as [ax ay az]. punf. ring. Qed.
 Lemma crossing_den pl a b : vdot ROps (vsub ROps b a) (pnormal pl) = plane_sd ROps pl b - plane_sd ROps pl a.
 Proof. destruct pl as [[rx ry rz] [nx ny nz]], a as [ax ay az], b as [bx by_ bz]. punf. ring. Qed.
 
-Lemma crossing_t_eq pl a b : crossing_t pl a b = - plane_sd ROps pl a / (plane_sd ROps pl b - plane_sd ROps pl a).
-Proof. unfold crossing_t, xsect_t. rops. rewrite (crossing_num pl a), crossing_den. reflexivity. Qed.
+(* the same parameter as intersect_segment_with_plane computes from the reference point *)
+Lemma crossing_t_is_xsect_t pl a b : plane_sd ROps pl a <> plane_sd ROps pl b ->
+  crossing_t pl a b = xsect_t ROps a (vsub ROps b a) (pref pl) (pnormal pl).
+Proof.
+  intros H. unfold crossing_t, xsect_t. rops. rewrite (crossing_num pl a), crossing_den. field. lra.
+Qed.
 
 Lemma crossing_param_in_unit_interval pl a b : opposite pl a b -> 0 < crossing_t pl a b < 1.
 Proof.
-  intros H. rewrite crossing_t_eq. set (sa := plane_sd ROps pl a) in *. set (sb := plane_sd ROps pl b) in *.
+  intros H. unfold crossing_t. set (sa := plane_sd ROps pl a) in *. set (sb := plane_sd ROps pl b) in *.
   unfold opposite in H. fold sa sb in H. clearbody sa sb.
-  assert (Hd : sb - sa <> 0) by lra.
-  assert (E : (- sa / (sb - sa)) * (sb - sa) = - sa) by (field; exact Hd).
-  set (t := - sa / (sb - sa)) in *. clearbody t. destruct H as [[Ha Hb]|[Hb Ha]]; split; nra.
+  assert (Hd : sa - sb <> 0) by lra.
+  assert (E : (sa / (sa - sb)) * (sa - sb) = sa) by (field; exact Hd).
+  set (t := sa / (sa - sb)) in *. clearbody t. destruct H as [[Ha Hb]|[Hb Ha]]; split; nra.
 Qed.
 
 Lemma crossing_on_plane pl a b : plane_sd ROps pl a <> plane_sd ROps pl b ->
@@ -581,7 +557,7 @@ Proof.
               plane_sd ROps pl a + crossing_t pl a b * (plane_sd ROps pl b - plane_sd ROps pl a)).
   { unfold crossing. generalize (crossing_t pl a b). intros t.
     destruct pl as [[rx ry rz] [nx ny nz]], a as [ax ay az], b as [bx by_ bz]. punf. ring. }
-  rewrite E, crossing_t_eq. field. lra.
+  rewrite E. unfold crossing_t. field. lra.
 Qed.
 
 Lemma isp_point start seg ref n :
@@ -594,11 +570,21 @@ Proof.
   destruct (Reqb_spec den 0) as [E0|_]; [contradiction|].
   destruct (Rltb_spec (num / den) 0); [lra|]. destruct (Rltb_spec 1 (num / den)); [lra|]. reflexivity.
 Qed.
+(* the row the slicing code computes from the two signed distances is the crossing point (never NaN) ... *)
 Lemma crossing_row_is_point pl a b : opposite pl a b -> crossing_row ROps pl a b = XPt (crossing pl a b).
 Proof.
+  intros H. unfold crossing_row, crossing, crossing_t, n0. rops.
+  destruct (Reqb_spec (plane_sd ROps pl a - plane_sd ROps pl b) 0) as [E|_]; [|reflexivity].
+  exfalso. destruct H as [[? ?]|[? ?]]; lra.
+Qed.
+(* ... and it is the point intersect_segment_with_plane returns for the same segment *)
+Lemma crossing_is_segment_plane_intersection pl a b : opposite pl a b ->
+  intersect_segment_with_plane ROps a (vsub ROps b a) (pref pl) (pnormal pl) = XPt (crossing pl a b).
+Proof.
   intros H. pose proof (crossing_param_in_unit_interval pl a b H) as Ht.
-  unfold crossing_row, crossing, crossing_t in *. apply isp_point; [|lra].
-  rewrite crossing_den. destruct H as [[? ?]|[? ?]]; lra.
+  assert (Hne : plane_sd ROps pl a <> plane_sd ROps pl b) by (destruct H as [[? ?]|[? ?]]; lra).
+  unfold crossing. rewrite (crossing_t_is_xsect_t pl a b Hne) in *. apply isp_point; [|lra].
+  rewrite crossing_den. lra.
 Qed.
 
 (* ---- the model on planes: rows of the result ------------------------------------------------------ *)
@@ -611,7 +597,7 @@ Section OnPlane.
 
   Lemma nonfront_nonzero_behind v : ~ front sg v -> (sg v =? 0)%Z = false -> plane_sd ROps pl v < 0.
   Proof.
-    intros Hf Hz. apply Z.eqb_neq in Hz. apply sign_neg. unfold front in Hf.
+    intros Hf Hz. apply Z.eqb_neq in Hz. apply sign_neg. unfold M_polyline_slice_spec.front in Hf.
     destruct (sign_range pl v) as [E|[E|E]]; congruence.
   Qed.
 
@@ -620,7 +606,7 @@ Section OnPlane.
     (forall v, before = Some v -> ~ front sg v) -> (forall f, first = Some f -> front sg f) ->
     enter sg XPt xs before first = map XPt (enter sg (fun v => v) (crossing pl) before first).
   Proof.
-    intros Hb Hf. unfold enter. destruct before as [v|]; [|reflexivity]. destruct first as [f|]; [|reflexivity].
+    intros Hb Hf. unfold M_polyline_slice_spec.enter. destruct before as [v|]; [|reflexivity]. destruct first as [f|]; [|reflexivity].
     destruct (sg v =? 0)%Z eqn:Ez; [reflexivity|]. cbn [map]. f_equal. apply crossing_row_is_point. left.
     split; [apply nonfront_nonzero_behind; auto|]. apply sign_pos. apply (Hf f eq_refl).
   Qed.
@@ -628,7 +614,7 @@ Section OnPlane.
     (forall l, lastv = Some l -> front sg l) -> (forall v, after = Some v -> ~ front sg v) ->
     leave sg XPt xs lastv after = map XPt (leave sg (fun v => v) (crossing pl) lastv after).
   Proof.
-    intros Hl Ha. unfold leave. destruct lastv as [l|]; [|reflexivity]. destruct after as [v|]; [|reflexivity].
+    intros Hl Ha. unfold M_polyline_slice_spec.leave. destruct lastv as [l|]; [|reflexivity]. destruct after as [v|]; [|reflexivity].
     destruct (sg v =? 0)%Z eqn:Ez; [reflexivity|]. cbn [map]. f_equal. apply crossing_row_is_point. right.
     split; [apply nonfront_nonzero_behind; auto|]. apply sign_pos. apply (Hl l eq_refl).
   Qed.
@@ -638,17 +624,15 @@ Section OnPlane.
   Lemma hd_error_in {A} (l : list A) x : hd_error l = Some x -> In x l.
   Proof. destruct l; [discriminate|]. intros H. injection H as ->. left. reflexivity. Qed.
 
-  Definition spec_points (pre run post : list (vec3 R)) : list (vec3 R) :=
-    spec_result sg (fun v => v) (crossing pl) pre run post.
-  Definition closed_spec_points (run rest : list (vec3 R)) : list (vec3 R) :=
-    closed_spec_result sg (fun v => v) (crossing pl) run rest.
+  Local Notation spec_points := (spec_points pl).
+  Local Notation closed_spec_points := (closed_spec_points pl).
 
   Lemma spec_result_points pre run post :
     Forall (front sg) run -> Forall (fun v => ~ front sg v) (pre ++ post) ->
     spec_result sg XPt xs pre run post = map XPt (spec_points pre run post).
   Proof.
     intros Hf Hn. apply Forall_app in Hn as [Hp Hq]. rewrite Forall_forall in Hf, Hp, Hq.
-    unfold spec_points, spec_result. rewrite map_id, !map_app.
+    unfold M_polyline_slice_spec.spec_points, M_polyline_slice_spec.spec_result. rewrite map_id, !map_app.
     rewrite enter_points, leave_points; try reflexivity.
     - intros l Hl. apply Hf, olast_in, Hl.
     - intros v Hv. apply Hq, hd_error_in, Hv.
@@ -660,7 +644,7 @@ Section OnPlane.
     closed_spec_result sg XPt xs run rest = map XPt (closed_spec_points run rest).
   Proof.
     intros Hf Hn. rewrite Forall_forall in Hf, Hn.
-    unfold closed_spec_points, closed_spec_result. rewrite map_id, !map_app.
+    unfold M_polyline_slice_spec.closed_spec_points, M_polyline_slice_spec.closed_spec_result. rewrite map_id, !map_app.
     rewrite enter_points, leave_points; try reflexivity.
     - intros l Hl. apply Hf, olast_in, Hl.
     - intros v Hv. apply Hn, hd_error_in, Hv.
@@ -673,7 +657,7 @@ Section OnPlane.
     (forall v, before = Some v -> ~ front sg v) -> (forall f, first = Some f -> front sg f) ->
     Forall (fun v => 0 <= plane_sd ROps pl v) (enter sg (fun v => v) (crossing pl) before first).
   Proof.
-    intros Hb Hf. unfold enter. destruct before as [v|]; [|constructor]. destruct first as [f|]; [|constructor].
+    intros Hb Hf. unfold M_polyline_slice_spec.enter. destruct before as [v|]; [|constructor]. destruct first as [f|]; [|constructor].
     destruct (sg v =? 0)%Z eqn:Ez; (constructor; [|constructor]).
     - apply Z.eqb_eq, sign_zero in Ez. lra.
     - rewrite crossing_on_plane; [lra|]. pose proof (nonfront_nonzero_behind v (Hb v eq_refl) Ez).
@@ -683,7 +667,7 @@ Section OnPlane.
     (forall l, lastv = Some l -> front sg l) -> (forall v, after = Some v -> ~ front sg v) ->
     Forall (fun v => 0 <= plane_sd ROps pl v) (leave sg (fun v => v) (crossing pl) lastv after).
   Proof.
-    intros Hl Ha. unfold leave. destruct lastv as [l|]; [|constructor]. destruct after as [v|]; [|constructor].
+    intros Hl Ha. unfold M_polyline_slice_spec.leave. destruct lastv as [l|]; [|constructor]. destruct after as [v|]; [|constructor].
     destruct (sg v =? 0)%Z eqn:Ez; (constructor; [|constructor]).
     - apply Z.eqb_eq, sign_zero in Ez. lra.
     - rewrite crossing_on_plane; [lra|]. pose proof (nonfront_nonzero_behind v (Ha v eq_refl) Ez).
@@ -693,7 +677,7 @@ Section OnPlane.
     Forall (front sg) run -> Forall (fun v => ~ front sg v) (pre ++ post) ->
     Forall (fun v => 0 <= plane_sd ROps pl v) (spec_points pre run post).
   Proof.
-    intros Hf Hn. apply Forall_app in Hn as [Hp Hq]. unfold spec_points, spec_result.
+    intros Hf Hn. apply Forall_app in Hn as [Hp Hq]. unfold M_polyline_slice_spec.spec_points, M_polyline_slice_spec.spec_result.
     rewrite map_id. apply Forall_app; split; [|apply Forall_app; split].
     - rewrite Forall_forall in Hf, Hp. apply enter_not_behind.
       + intros v Hv. apply Hp, olast_in, Hv.
@@ -723,7 +707,6 @@ Section OnPlane.
 End OnPlane.
 
 (* ---- statements about Polyline.sliced_by_plane ----------------------------------------------------- *)
-Definition in_front (pl : plane R) (v : vec3 R) : Prop := front (plane_sign ROps pl) v.
 
 Lemma in_front_iff pl v : in_front pl v <-> 0 < plane_sd ROps pl v.
 Proof. apply sign_pos. Qed.
@@ -791,70 +774,18 @@ Proof.
   assert (Hlen : forall (before first : option (vec3 R)),
              (length (enter (plane_sign ROps pl) (fun v => v) (crossing pl) before first) <= 1)%nat /\
              (length (leave (plane_sign ROps pl) (fun v => v) (crossing pl) before first) <= 1)%nat).
-  { intros [v|] [f|]; unfold enter, leave; cbn; try lia. destruct (_ =? 0)%Z, (_ =? 0)%Z; cbn; lia. }
+  { intros [v|] [f|]; unfold M_polyline_slice_spec.enter, M_polyline_slice_spec.leave; cbn; try lia. destruct (_ =? 0)%Z, (_ =? 0)%Z; cbn; lia. }
   destruct (closed && (1 <? length vs)%nat).
   - intros H. pose proof H as H'. apply closed_ok_split in H' as (run & rest & Hc).
     rewrite (proj1 (closed_refines_spec _ _ _ vs) run rest Hc) in H. injection H as <-.
     destruct Hc as ((x & y & El & Er) & Hr & Hs & Hf & Hn).
-    rewrite closed_spec_result_points by assumption. unfold closed_spec_points, closed_spec_result. rewrite map_id.
+    rewrite closed_spec_result_points by assumption. unfold M_polyline_slice_spec.closed_spec_points, M_polyline_slice_spec.closed_spec_result. rewrite map_id.
     eexists _, run, _. split; [reflexivity|]. repeat split; try apply Hlen; try assumption.
     exists x, y, [], rest. split; [exact El|exact Er].
   - intros H. apply core_ok_is_spec in H as (pre & run & post & [El Hne Hf Hn] & Hpp & ->).
-    unfold spec_points, spec_result. rewrite map_id.
+    unfold M_polyline_slice_spec.spec_points, M_polyline_slice_spec.spec_result. rewrite map_id.
     eexists _, run, _. split; [reflexivity|]. repeat split; try apply Hlen; try assumption.
     exists [], vs, pre, post. split; [reflexivity|]. rewrite app_nil_r. exact El.
-Qed.
-
-(* ---- the code as it is at the pinned commit (without fixes/C06-closed-slice.diff) ------------------ *)
-Definition xplane : plane R := MkPlane (V3 0 0 0) (V3 1 0 0).
-
-Lemma unfixed_all_front_raises_index_error :
-  sliced_by_plane_unfixed ROps xplane (MkPolyline [V3 1 0 0; V3 1 1 0] true) = Raise IndexError.
-Proof.
-  unfold sliced_by_plane_unfixed, slice_any_unfixed, slice_closed_unfixed, closed_roll. cbn [pclosed pv length Nat.ltb Nat.leb andb map].
-  assert (S : forall y, plane_sign ROps xplane (V3 1 y 0) = 1%Z).
-  { intros y. apply sign_pos. unfold xplane. punf. lra. }
-  rewrite !S. cbn. reflexivity.
-Qed.
-
-Lemma xplane_sign x y : plane_sign ROps xplane (V3 x y 0) = nsign ROps x.
-Proof. unfold plane_sign. f_equal. unfold xplane. punf. ring. Qed.
-
-Lemma unfixed_generic {A B} (sg : A -> Z) (pt : A -> B) (xs : A -> A -> B) v0 v1 v2 :
-  sg v0 = (-1)%Z -> sg v1 = 1%Z -> sg v2 = 1%Z ->
-  slice_closed_unfixed sg pt xs [v0; v1; v2] = Ok [xs v0 v1; pt v1; pt v2] /\
-  closed_spec_result sg pt xs [v1; v2] [v0] = [xs v0 v1; pt v1; pt v2; xs v2 v0].
-Proof.
-  intros H0 H1 H2. split.
-  - unfold slice_closed_unfixed, closed_roll. cbn [map olast]. rewrite H0, H1, H2. cbn.
-    do 4 (rewrite ?H0, ?H1, ?H2; cbn). reflexivity.
-  - unfold closed_spec_result, enter, leave. cbn [olast hd_error map app]. rewrite H0. reflexivity.
-Qed.
-
-Lemma unfixed_one_nonfront_loses_exit :
-  let vs := [V3 (-1) 0 0; V3 1 1 0; V3 1 2 0] in
-  let run := [V3 1 1 0; V3 1 2 0] in let rest := [V3 (-1) 0 0] in
-  cyclic_split (plane_sign ROps xplane) vs run rest /\
-  (exists rows, sliced_by_plane_unfixed ROps xplane (MkPolyline vs true) = Ok rows /\ length rows = 3%nat) /\
-  length (closed_spec_points xplane run rest) = 4%nat.
-Proof.
-  assert (Sp : nsign ROps 1 = 1%Z).
-  { unfold nsign. rops. destruct (Rltb_spec 0 1); [reflexivity|lra]. }
-  assert (Sn : nsign ROps (-1) = (-1)%Z).
-  { unfold nsign. rops. destruct (Rltb_spec 0 (-1)); [lra|]. destruct (Rltb_spec (-1) 0); [reflexivity|lra]. }
-  cbv zeta. split; [|split].
-  - split; [exists [V3 (-1) 0 0], [V3 1 1 0; V3 1 2 0]; split; reflexivity|].
-    split; [discriminate|]. split; [discriminate|]. split.
-    + repeat constructor; unfold front; rewrite xplane_sign; exact Sp.
-    + repeat constructor. unfold front. rewrite xplane_sign, Sn. discriminate.
-  - eexists. split.
-    + unfold sliced_by_plane_unfixed, slice_any_unfixed. cbn [pclosed pv length Nat.ltb Nat.leb andb].
-      apply unfixed_generic; rewrite xplane_sign; assumption.
-    + reflexivity.
-  - unfold closed_spec_points.
-    rewrite (proj2 (unfixed_generic (plane_sign ROps xplane) (fun v => v) (crossing xplane) _ _ _
-              (eq_trans (xplane_sign _ _) Sn) (eq_trans (xplane_sign _ _) Sp) (eq_trans (xplane_sign _ _) Sp))).
-    reflexivity.
 Qed.
 
 Theorem only_value_error pl p e : sliced_by_plane ROps pl p = Raise e -> e = ValueError.
